@@ -4,6 +4,11 @@ manifest is valid at every commit)."""
 import json, os, sys
 
 CHECKS = {
+ "C03": ("model_checking",
+         "full product of a response grammar against a three-valued reference classifier; redirect-graph enumeration; explicit-state search over fetch histories and cache sizes on the real jtp.Get",
+         "257 855 response exchanges (quick; status-line atoms x all header sequences of length <=2 over 23 atoms incl. confusable header names x 14 bodies x 2 tolerated sets; thorough adds length-3 header sequences and all bodies for every status), chains of every length around budgets 0..3 (jtp.Get) and 20 (client.FetchURL) in 5 Location styles, cycles, 7 kinds of bad hop at each position, and a breadth-first search over fetch histories (10 URLs, depth 4/5, cache sizes 1,2,3,128; state = real cache contents) where every fetch is compared with the cold result; request counts per fetch are bounded by the budget.",
+         "Env-B (verifrt.Dial seam, no TLS). Exchanges the statement is silent on are crash-checked only. One known finding (cached suffix extends the redirect budget) is listed in known-findings.txt.",
+         "DESIGN.md §3 C03"),
  "C20": ("exploration",
          "bounded-exhaustive enumeration of hook configurations x hostile links x media types x entry points through the real UI with a real exec of a dump program",
          "Hook = dump program + every argument sequence of length <=2 (quick, 94 hooks) / <=3 (thorough, 823) over 9 tokens (placeholders, embedded and repeated placeholders, wrong case, --, empty) plus hooks whose program name is a placeholder; 17 links (spaces, quotes, ;, $(), backticks, leading dashes, text that looks like a placeholder, 4 kB, the path of an executable) x 5 media types x 6 entry points (o, number+Enter for body link and attachment, p, b): exactly one process per key, argv equals the configured argv with exact-match substitution at indices >= 1, stdin carries the link iff no %url argument, the program name is never substituted, the UI returns to normal mode.",
